@@ -112,8 +112,9 @@ MNext ==
                            ELSE LET mk == CHOOSE x \in ms : \A y \in ms : Cardinality(x[1].V) <= Cardinality(y[1].V)
                                     c == mk[1]
                                 IN S' = [S1 EXCEPT !.above = c.above, !.order = c.order, !.blanked = res.blank, !.wasCut = S1.wasCut \/ IsCut(S1, c),
-                                                   !.bars = [bb \in DOMAIN S1.bars |-> IF bb \in c.V THEN [S1.bars[bb] EXCEPT !.static = FALSE, !.vis = FALSE]
-                                                                                     ELSE IF res.blank THEN S1.bars[bb] ELSE [S1.bars[bb] EXCEPT !.onscr = S1.bars[bb].pend]]]
+                                                   !.bars = LET bs == [bb \in DOMAIN S1.bars |-> IF bb \in c.V THEN [S1.bars[bb] EXCEPT !.static = FALSE, !.vis = FALSE]
+                                                                                     ELSE IF res.blank THEN S1.bars[bb] ELSE [S1.bars[bb] EXCEPT !.onscr = S1.bars[bb].pend]]
+                                                            IN IF ~res.blank /\ IsCut(S1, c) THEN MarkCutOff(S1, c, bs) ELSE bs]
                  ELSE /\ ok' = TRUE
                       /\ S' = [S1 EXCEPT !.above = S1.above \o [j \in 1..Len(res.log) |-> LogItem(res.log[j])]]
               /\ hist' = Append(hist, o)
